@@ -117,7 +117,7 @@ def containedIn (env : Env) (l r : PV) : Outcome VER :=
       if (match rhsl with | x :: _ => x.isList | [] => false) then
         match liftOpt (looseContains env rhsl l) with
         | .ok true => .ok (.cmp (.success (.listIn [] l r)))
-        | .ok false => .ok (.cmp (.fail (.listIn [l] l r)))
+        | .ok false => .ok (.cmp (.fail (.listIn lhsl l r)))
         | .err e => .err e | .panic s => .panic s | .outOfFuel => .outOfFuel
       else
         match notContainedIn env rhsl lhsl with
